@@ -225,6 +225,7 @@ def _o_gcirc(call):
 
 
 def install():
+    probe.enable_argflip({"sphdist": None, "gcirc": None}, every=4)
     probe.enable_recall("C08.recall", every=5)
     probe.instrument("esutil.coords:sphdist", [_o_sphdist])
     probe.instrument("esutil.coords:gcirc", [_o_gcirc])
